@@ -319,6 +319,8 @@ func init() {
 		alphabet = append(alphabet, string(r), "n"+string(r), string(r)+"m")
 	}
 	alphabet = append(alphabet, gen.CaseShiftingWords()...)
+	// multi-line literals whose body ends in a lone CR, signs in front of postfix forms with ill-typed bounds
+	alphabet = append(alphabet, "'''x\ny\r'''", "\"\"\"a\\b\r\"\"\"", "'''q'\r'''", "'''\r'''", "-a[1.5:]", "+a[:\"k\"]", "-f(1)[:2.5]", "-\"abc\"[1.0:]", "-a[b[1.5:]]", "!a[1.5:]", "-a[[1]:]", "-a[::1.5]", "- -a[nil:]", "-a[1.5]", "-a[\"k\":][0]")
 	for i, r := range gen.OddRunes {
 		if i%4 == 0 {
 			alphabet = append(alphabet, "\""+string(r)+"\"", "# "+string(r)+"\n", "`"+string(r)+"`")
@@ -622,6 +624,17 @@ func TestMalformedOperandTable(t *testing.T) {
 				one(t, "badoperand", "typed-literal-as-slice-bound", "x = "+fmt.Sprintf(form, obj, lit))
 				one(t, "badoperand", "typed-literal-as-slice-bound", "y = 1\nif y { z = "+fmt.Sprintf(form, obj, lit)+" }\nw = 2")
 				n += 2
+				// the same under a sign or a negation, as the index of another element, as an operand
+				for _, pre := range []string{"-", "+", "!", "- -", "-(", "1 + -"} {
+					e := fmt.Sprintf(form, obj, lit)
+					post := ""
+					if pre == "-(" {
+						post = ")"
+					}
+					one(t, "badoperand", "typed-literal-as-slice-bound", "x = "+pre+e+post)
+					one(t, "badoperand", "typed-literal-as-slice-bound", "x = "+pre+"b["+e+"]"+post)
+					n += 2
+				}
 			}
 		}
 	}
